@@ -1,4 +1,6 @@
 #!/bin/bash
+# exclusive lock on /repo for the whole run (checks started by others wait)
+if [ "${VERIF_LOCK_HELD:-0}" != "1" ]; then exec env VERIF_LOCK_HELD=1 flock /tmp/verif_repo.lock "$0" "$@"; fi
 # usage: tools_seedtest.sh <patch file> "<check ids>" [tier]   -- apply a seeded patch to /repo, run checks, revert
 P=$1; IDS=$2; TIER=${3:-quick}
 cd /repo && git diff --quiet || { echo "repo dirty"; exit 9; }
